@@ -202,9 +202,60 @@ class Session:
             data += bytes((op['cid'] * 31 + 0x5a + k) & 0xff for k in range(1 + (op['cid'] * 13 + op['length']) % 2500))
         return io.BytesIO(data)
 
+    PATH_KEYS = ('iso_path', 'joliet_path', 'udf_path', 'rr_path', 'iso_old_path', 'iso_new_path', 'joliet_old_path',
+                 'joliet_new_path', 'udf_old_path', 'udf_new_path', 'symlink_path', 'udf_symlink_path', 'bootcatfile',
+                 'joliet_bootcatfile', 'udf_bootcatfile', 'bootfile_path', 'path')
+
+    def spell(self, op):
+        """One path argument in eight is handed to the library in another spelling of the same path
+        ('/ZZTOP/../A/B', '/A/./B', '/A//B', '/A/QQ/../B'): every public call documents absolute
+        paths and normalises them, so the spelling must not matter.  Deterministic (no draw from any
+        generator): the op lists, the model and the witnesses keep the canonical form."""
+        import zlib
+        out = None
+        for k in self.PATH_KEYS:
+            v = op.get(k)
+            if k == 'rr_path' and op['op'] == 'add_symlink':
+                continue                                   # a link target, not a path on the image
+            if not isinstance(v, str) or len(v) < 2 or not v.startswith('/') or '/.' in v or '//' in v or v.endswith('/'):
+                continue
+            salt = zlib.crc32(('%s|%s|%d' % (k, v, len(self.events))).encode('utf-8', 'surrogatepass'))
+            if salt % 8:
+                continue
+            head, _, last = v.rpartition('/')
+            how = (salt >> 3) % 4
+            if how == 0:
+                nv = '/ZZTOP/..' + v
+            elif how == 1:
+                first, sep, rest = v[1:].partition('/')
+                nv = '/' + first + '/.' + sep + rest if sep else '/.' + v
+            elif how == 2:
+                nv = head + '//' + last
+            else:
+                nv = head + '/QQ/../' + last
+            if out is None:
+                out = dict(op)
+            out[k] = nv
+            count('respelled_paths')
+        if out is not None and 'old' in op:
+            pass
+        return out if out is not None else op
+
     def call(self, op):
         iso = self.iso
         name = op['op']
+        if name == 'add_hard_link' or name.startswith('q_'):
+            # (paths of these live in tuples / under a variable key: spelled below)
+            op = dict(op)
+            if name == 'add_hard_link':
+                for which in ('old', 'new'):
+                    if op.get(which):
+                        ns_, p_ = op[which]
+                        op[which] = (ns_, self.spell({'op': name, 'path': p_}).get('path'))
+            elif 'path' in op:
+                op['path'] = self.spell({'op': name, 'path': op['path']})['path']
+        else:
+            op = self.spell(op)
         if name == 'add_fp':
             fp = self.make_fp(op)
             self.fps.append(fp)
